@@ -347,6 +347,14 @@ class SymWorld(WorldBase):
     def scoped(self, cond):
         return self.eng.scoped(cond)
 
+    def rewind(self, prefixes=('s',)):
+        """restart the environment streams (fresh proposal points, clock) so
+        that a second run sees the same environment as the first"""
+        for k in list(self.eng.fresh_n):
+            if not k.startswith('@') and k.startswith(tuple(prefixes)):
+                del self.eng.fresh_n[k]
+        self._clock_n = 0
+
     def alg(self, **kw):
         from . import nra
         return nra.SymAlg(**kw)
@@ -498,6 +506,16 @@ class ConcreteWorld(WorldBase):
 
     def leq(self, a, b):
         return a <= b + 1e-9 * max(1.0, abs(a), abs(b))
+
+    def scoped(self, cond):
+        import contextlib
+        return contextlib.nullcontext()
+
+    def rewind(self, prefixes=('s',)):
+        for k in list(self.fresh_n):
+            if not k.startswith('@') and k.startswith(tuple(prefixes)):
+                del self.fresh_n[k]
+        self._clock_n = 0
 
     def alg(self, **kw):
         from . import nra
